@@ -10,6 +10,7 @@ OASIS text.  `absMsg m` is the packet a message object stands for (its fields);
 All theorems quantify over every message / byte string / counter value.
 -/
 import Mqtt.Proofs.CodecBuilt
+import Mqtt.Proofs.CodecReachThm
 import Mqtt.Proofs.XlateCodec
 import Mqtt.Proofs.XlatePutUvarint
 import Mqtt.Proofs.XlateValid
@@ -120,6 +121,244 @@ example : (match encode examplePublish 65535 examplePublish.len with
 example : (match decodeNew 4 [0x40, 0x02, 0x12, 0x34, 0xff, 0xff] with
            | .ok d => decide (d.n = 4 ∧ d.msg.len = 4)
            | _ => false) = true := by decide
+
+/-! ## Messages reachable through the API: `Type.New()` **or a successful `Decode`**, then setters
+
+`Reachable m`: `m` is `Type(t).New()` or the message a decoder returned for *any* accepted byte string,
+followed by any number of calls of the 25 public setters (`Proofs/CodecReachThm.lean`).  This is what the
+broker does with every forwarded PUBLISH: `SetQoS`, `SetRetain`, `SetDup`, `SetPacketID` on a decoded
+message write through `mtypeflags` / `packetID` into the decode buffer while the object is not dirty, and
+`Encode` then copies that buffer; every other setter marks the object dirty and `Encode` rebuilds the bytes
+from the fields.  `run o ss` is the same thing with the history spelled out (`Origin` = `new t` or
+`dec t src`; `ss` = the setter calls in order). -/
+
+theorem reachable_iff (m : Msg) : Reachable m ↔ ∃ o ss, run o ss = some m :=
+  reachable_iff_run m
+
+/-- `Encode` into `Len()` bytes writes exactly `Len()` bytes, for every reachable message
+(a special case of `encode_len`, which holds for every message object). -/
+theorem C03_reachable_encode_len (m : Msg) (_hr : Reachable m) (ctr : UInt64) (e : Encoded)
+    (he : encode m ctr m.len = .ok e) : e.out.length = m.len :=
+  encode_len_all m ctr e he
+
+/-- The full statement "the bytes `Encode` writes are the MQTT 3.1.1 reference encoding of the message's
+current fields", for every reachable message.  **False as it stands** (`…_counterexample`): a decoder accepts
+byte strings that are not the reference encoding of the fields it returns — a remaining length written with
+more bytes than necessary (`40 82 00 …`, allowed by MQTT 3.1.1), a CONNECT whose user-name/password flag
+announces a field that is missing (malformed, accepted leniently) — and while the object is not dirty `Encode`
+reproduces exactly those bytes (`encode_decode_canonical`), with the flag and identifier bytes the setters
+have written through. -/
+def ReachableEncodeIsWire : Prop :=
+  ∀ m, Reachable m → WillOk m → ∀ (ctr : UInt64) (e : Encoded), encode m ctr m.len = .ok e →
+    e.out = Wire.encode (absMsg e.msg)
+
+instance (m : Msg) : Decidable (WillOk m) := by
+  cases m <;> unfold WillOk <;> infer_instance
+
+/-- witness 1 (what the broker does to a forwarded PUBLISH): QoS 1 PUBLISH "a" / id 7 / "hi" whose
+remaining length 7 is written `87 00`; then `SetQoS(2)`, `SetRetain(true)`, `SetDup(true)`, `SetPacketID(9)` -/
+def cexPublish : Origin := .dec 3 [0x32, 0x87, 0x00, 0x00, 0x01, 0x61, 0x00, 0x07, 0x68, 0x69]
+def cexSetters : List Setter := [.qos 2, .retain true, .dup true, .id 9]
+
+/-- witness 2: CONNECT (clean session, client id "a") with the user-name flag set and no user-name field -/
+def cexConnect : Origin :=
+  .dec 1 [0x10, 0x0d, 0x00, 0x04, 0x4d, 0x51, 0x54, 0x54, 0x04, 0x82, 0x00, 0x00, 0x00, 0x01, 0x61]
+
+/-- what the two witnesses encode to, next to the reference encoding of their fields (both runs are
+`Excluded`, both objects are still clean) -/
+theorem C03_reachable_encode_is_wire_witnesses :
+    (match run cexPublish cexSetters with
+     | some m => (match encode m 0 m.len with
+       | .ok e => decide (e.out = [0x3d, 0x87, 0x00, 0x00, 0x01, 0x61, 0x00, 0x09, 0x68, 0x69] ∧
+                          Wire.encode (absMsg e.msg) = [0x3d, 0x07, 0x00, 0x01, 0x61, 0x00, 0x09, 0x68, 0x69] ∧
+                          m.hdr.dirty = false ∧ Excluded cexPublish cexSetters = true ∧ WillOk m)
+       | _ => false)
+     | none => false) = true ∧
+    (match run cexConnect [] with
+     | some m => (match encode m 0 m.len with
+       | .ok e => decide (e.out = [0x10, 0x0d, 0x00, 0x04, 0x4d, 0x51, 0x54, 0x54, 0x04, 0x82, 0x00, 0x00, 0x00, 0x01, 0x61] ∧
+                          Wire.encode (absMsg e.msg) =
+                            [0x10, 0x0f, 0x00, 0x04, 0x4d, 0x51, 0x54, 0x54, 0x04, 0x82, 0x00, 0x00, 0x00, 0x01, 0x61, 0x00, 0x00] ∧
+                          m.hdr.dirty = false ∧ Excluded cexConnect [] = true ∧ WillOk m)
+       | _ => false)
+     | none => false) = true := by
+  constructor <;> decide
+
+theorem C03_reachable_encode_is_wire_counterexample : ¬ ReachableEncodeIsWire := by
+  intro H
+  have hw := C03_reachable_encode_is_wire_witnesses.1
+  cases hr : run cexPublish cexSetters with
+  | none => rw [hr] at hw; cases hw
+  | some m =>
+    rw [hr] at hw
+    simp only [] at hw
+    have hreach : Reachable m := (reachable_iff m).mpr ⟨_, _, hr⟩
+    cases he : encode m 0 m.len with
+    | ok e =>
+      rw [he] at hw
+      have hw := of_decide_eq_true hw
+      have := H m hreach hw.2.2.2.2 0 e he
+      rw [hw.1, hw.2.1] at this
+      revert this
+      decide
+    | err => rw [he] at hw; cases hw
+    | panic => rw [he] at hw; cases hw
+
+/-- `_partial`: the statement holds for every run that is not `Excluded` — i.e. unless the decoder's input
+was **not** the reference encoding of the fields it returned (`Origin.canonical`, decidable: re-encode and
+compare) *and* no setter call has marked the object dirty since.  In particular it holds for every message
+decoded from a reference encoding and then modified by any setters (the in-place path of `SetDup`,
+`SetRetain`, `SetQoS` 1↔2, `SetPacketID` included), and for every message — decoded from anything — once a
+setter such as `SetQoS` 0↔1, `SetTopic`, `SetPayload`, `AddTopic`, `RemoveTopic` has made it dirty. -/
+theorem C03_reachable_encode_is_wire_partial (o : Origin) (ss : List Setter) (m : Msg) (hr : run o ss = some m)
+    (hx : Excluded o ss = false) (hw : WillOk m) (ctr : UInt64) (e : Encoded)
+    (he : encode m ctr m.len = .ok e) : e.out = Wire.encode (absMsg e.msg) :=
+  run_encode_wire hr hx hw ctr e he
+
+/-- the dirty half of `_partial` without a history: whatever a message was decoded from, once it is dirty
+`Encode` writes the reference encoding of its fields -/
+theorem C03_reachable_dirty_encode_is_wire (m : Msg) (hr : Reachable m) (hd : m.hdr.dirty = true) (hw : WillOk m)
+    (ctr : UInt64) (e : Encoded) (he : encode m ctr m.len = .ok e) : e.out = Wire.encode (absMsg e.msg) :=
+  reachable_dirty_encode_wire hr hd hw ctr e he
+
+/-! ### … up to the form of the remaining length
+
+MQTT 3.1.1 (section 2.2.3) does not require the shortest form of the remaining length, and the decoders accept
+the longer ones.  `Wire.Encodes bs p`: `bs` is the type/flags byte of `p`, a one- to four-byte form of the length
+of its body, and its body (`Wire.encode p` is the one with the shortest form).  With this reading of "the MQTT
+3.1.1 wire encoding of the message's fields" witness 1 above is no counterexample any more, and the in-place
+path is covered for every remaining-length form a client may use; what stays excluded (`ExcludedV`) is a clean
+object whose input was not an encoding of the returned fields at all — the CONNECT of witness 2. -/
+
+/-- the statement with `Encodes`; still false as it stands, because of the leniently accepted CONNECT -/
+def ReachableEncodeIsEncoding : Prop :=
+  ∀ m, Reachable m → WillOk m → ∀ (ctr : UInt64) (e : Encoded), encode m ctr m.len = .ok e →
+    Wire.Encodes e.out (absMsg e.msg)
+
+theorem C03_reachable_encode_is_encoding_counterexample : ¬ ReachableEncodeIsEncoding := by
+  intro H
+  have hw := C03_reachable_encode_is_wire_witnesses.2
+  cases hr : run cexConnect [] with
+  | none => rw [hr] at hw; cases hw
+  | some m =>
+    rw [hr] at hw
+    simp only [] at hw
+    have hreach : Reachable m := (reachable_iff m).mpr ⟨_, _, hr⟩
+    cases he : encode m 0 m.len with
+    | ok e =>
+      rw [he] at hw
+      have hw := of_decide_eq_true hw
+      obtain ⟨v, _, hv⟩ := H m hreach hw.2.2.2.2 0 e he
+      -- the reference encoding of the fields has a body of 15 bytes; the 15 bytes written cannot hold it
+      have hb : (absMsg e.msg).body.length = 15 := by
+        have h2 := congrArg List.length hw.2.1
+        unfold Wire.encode at h2
+        simp only [List.length_cons, List.length_append, List.length_nil] at h2
+        have := varint_len_bounds (absMsg e.msg).body.length
+        by_cases h128 : (absMsg e.msg).body.length < 128
+        · have : (Wire.varint (absMsg e.msg).body.length).length = 1 := by unfold Wire.varint; rw [if_pos h128]; rfl
+          omega
+        · omega
+      have h1 := congrArg List.length hv
+      rw [hw.1] at h1
+      unfold Wire.encodeV at h1
+      simp only [List.length_cons, List.length_append, List.length_nil] at h1
+      omega
+    | err => rw [he] at hw; cases hw
+    | panic => rw [he] at hw; cases hw
+
+/-- `_partial`: the bytes `Encode` writes are an MQTT 3.1.1 encoding (`Wire.Encodes`) of the message's current
+fields for every run that is not `ExcludedV` — i.e. unless the decoder's input was not the type/flags byte, a form
+of the remaining length and the body of the fields it returned (`Origin.bodyCanonical`, decidable), *and* the
+object is still clean.  For a clean object the remaining-length bytes are those of the input
+(`Proofs/CodecReachThm.rinv_encode_encodes`); a dirty one gets the shortest form. -/
+theorem C03_reachable_encode_is_encoding_partial (o : Origin) (ss : List Setter) (m : Msg) (hr : run o ss = some m)
+    (hx : ExcludedV o ss = false) (hw : WillOk m) (ctr : UInt64) (e : Encoded)
+    (he : encode m ctr m.len = .ok e) : Wire.Encodes e.out (absMsg e.msg) :=
+  run_encodes hr hx hw ctr e he
+
+/-- … and the round trip, for the same runs: if the fields `Encode` leaves form a well-formed packet, decoding the
+bytes it wrote (followed by anything) succeeds, consumes exactly those bytes and yields equal fields — whatever
+form of the remaining length the decoded input used. -/
+theorem C03_reachable_decode_encode_encoding_partial (o : Origin) (ss : List Setter) (m : Msg)
+    (hr : run o ss = some m) (hx : ExcludedV o ss = false) (hw : WillOk m) (ctr : UInt64) (e : Encoded)
+    (he : encode m ctr m.len = .ok e) (hwf : Wire.WF (absMsg e.msg)) (rest : Bytes) :
+    ∃ d, decodeNew (absMsg e.msg).type (e.out ++ rest) = .ok d ∧ d.n = e.out.length ∧
+      absMsg d.msg = absMsg e.msg :=
+  run_round_trip_encodes hr hx hw ctr e he hwf rest
+
+/-- `ExcludedV` leaves out fewer runs than `Excluded`: a reference encoding is in particular an encoding -/
+theorem C03_excludedV_excluded (o : Origin) (ss : List Setter) (h : ExcludedV o ss = true) : Excluded o ss = true := by
+  unfold ExcludedV at h
+  unfold Excluded
+  cases hc : o.canonical with
+  | false => simpa [hc] using (by simpa using h : _ ∧ _).2
+  | true => rw [canonical_imp_bodyCanonical hc] at h; simp at h
+
+/-- witness 1 is covered by it, witness 2 is what it excludes -/
+example : ExcludedV cexPublish cexSetters = false ∧ ExcludedV cexConnect [] = true := by
+  constructor <;> decide
+
+/-- The full round-trip statement for reachable messages.  Proved for every run that is not `ExcludedV`
+(`C03_reachable_decode_encode_encoding_partial` below; `…_decode_encode_partial` is the special case of reference
+inputs); for the runs that stay excluded — a clean object whose input was not an encoding of the returned fields at
+all, i.e. the leniently accepted CONNECT — the hypothesis `WF (absMsg e.msg)` can still hold (user name flag with an
+empty user name is well-formed) while the bytes written lack the field: neither proved nor refuted here; the
+differential runs (`codec build from=…`) check it on the real code. -/
+def ReachableDecodeEncode : Prop :=
+  ∀ m, Reachable m → WillOk m → ∀ (ctr : UInt64) (e : Encoded), encode m ctr m.len = .ok e →
+    Wire.WF (absMsg e.msg) → ∀ rest : Bytes,
+      ∃ d, decodeNew (absMsg e.msg).type (e.out ++ rest) = .ok d ∧ d.n = e.out.length ∧ absMsg d.msg = absMsg e.msg
+
+theorem C03_reachable_decode_encode_partial (o : Origin) (ss : List Setter) (m : Msg) (hr : run o ss = some m)
+    (hx : Excluded o ss = false) (hw : WillOk m) (ctr : UInt64) (e : Encoded)
+    (he : encode m ctr m.len = .ok e) (hwf : Wire.WF (absMsg e.msg)) (rest : Bytes) :
+    ∃ d, decodeNew (absMsg e.msg).type (e.out ++ rest) = .ok d ∧ d.n = e.out.length ∧
+      absMsg d.msg = absMsg e.msg :=
+  run_round_trip hr hx hw ctr e he hwf rest
+
+/-- `Encode` does not refuse a reachable message: a clean one is copied as it is (no identifier is
+assigned on that path — a decoded SUBSCRIBE with identifier 0 is re-encoded with identifier 0); a dirty one
+whose fields, with an identifier assigned where one is missing, form a well-formed packet is encoded and
+left as `assign m ctr` (the statement `encode_succeeds` makes for built messages). -/
+theorem C03_reachable_encode_succeeds (m : Msg) (hr : Reachable m) (ctr : UInt64)
+    (hwf : m.hdr.dirty = true → Wire.WF (absMsg (assign m ctr))) :
+    ∃ e, encode m ctr m.len = .ok e ∧ e.msg = assignR m ctr :=
+  reachable_encode_succeeds hr ctr hwf
+
+/-- every reachable message keeps the shape of its packet type (type nibble, reserved flags, list lengths) -/
+theorem C03_reachable_shape (m : Msg) (hr : Reachable m) : Shape m :=
+  shape_reachable hr
+
+/-- non-vacuity: a PUBLISH decoded from its reference encoding (QoS 1, topic "a", id 7, payload "hi"), then
+`SetQoS(2)`, `SetRetain(true)`, `SetDup(true)`, `SetPacketID(9)`: not excluded, still clean (the in-place
+path), and re-encoded as `3d 07 00 01 61 00 09 68 69` -/
+def examplePublishDecoded : Origin := .dec 3 [0x32, 0x07, 0x00, 0x01, 0x61, 0x00, 0x07, 0x68, 0x69]
+
+example : (match run examplePublishDecoded cexSetters with
+           | some m => (match encode m 0 m.len with
+             | .ok e => decide (e.out = [0x3d, 0x07, 0x00, 0x01, 0x61, 0x00, 0x09, 0x68, 0x69] ∧ m.hdr.dirty = false ∧
+                                Excluded examplePublishDecoded cexSetters = false ∧ Wire.WF (absMsg e.msg))
+             | _ => false)
+           | none => false) = true := by decide
+
+/-- … and a setter that changes the packet's shape (`SetQoS(0)`: no identifier field any more) on a message
+decoded from a *non*-reference encoding: dirty, hence not excluded, re-encoded from the fields -/
+example : (match run cexPublish [.qos 0] with
+           | some m => (match encode m 0 m.len with
+             | .ok e => decide (e.out = [0x30, 0x05, 0x00, 0x01, 0x61, 0x68, 0x69] ∧ m.hdr.dirty = true ∧
+                                Excluded cexPublish [.qos 0] = false)
+             | _ => false)
+           | none => false) = true := by decide
+
+/-- the two excluded witnesses decode back to equal fields -/
+example : (match run cexPublish cexSetters with
+           | some m => (match encode m 0 m.len with
+             | .ok e => (match decodeNew 3 e.out with
+               | .ok d => decide (d.n = e.out.length ∧ absMsg d.msg = absMsg e.msg)
+               | _ => false)
+             | _ => false)
+           | none => false) = true := by decide
 
 /-! ## Tie to the Go source: the length arithmetic and the validators are the regenerated translation
 
